@@ -53,7 +53,12 @@ def synthetic(rng):
     ny, nx = int(rng.integers(2, 9)), int(rng.integers(2, 9))
     dx, dy = float(rng.uniform(1, 30)), float(rng.uniform(1, 30))
     vclass = str(rng.choice(["serial", "random", "denormal", "huge", "tiny", "zeros", "float32", "negzero_nan_free", "max"]))
-    tskind = str(rng.choice(["str", "int", "int_hours", "labels", "descending", "numeric_strings", "datetimes"]))
+    tskind = str(rng.choice(["str", "int", "int_hours", "labels", "descending", "numeric_strings", "datetimes", "datetimes_tz", "datetimes_subsecond"]))
+    # the saved result set need not be the whole configured series: steps solved one at a time for chosen indices, a slice of a longer run
+    subset = bool(rng.random() < 0.25)
+    ns_saved = ns
+    if subset:
+        ns = ns + int(rng.integers(2, 5))
     forcing = str(rng.choice(["ustar", "z0"]))
     hetero = bool(three and rng.random() < 0.5)
     names = [str(x) for x in rng.permutation(["zeta", "Alpha", "mid", "beta-2"])[:nt]]
@@ -71,15 +76,27 @@ def synthetic(rng):
     elif tskind == "int_hours":  # integer labels whose str() does not sort in step order
         met["timestamps"] = [8 + i for i in range(ns)]
     elif tskind == "labels":
-        met["timestamps"] = ["morning", "noon", "evening", "night"][:ns]
+        met["timestamps"] = ["morning", "noon", "evening", "night", "dawn", "dusk", "late", "early"][:ns]
     elif tskind == "descending":
         met["timestamps"] = [f"2024-03-{28 - i:02d}" for i in range(ns)]
     elif tskind == "numeric_strings":  # labels that read as numbers but are not written the way str(number) writes them (HHMM, run ids)
-        met["timestamps"] = [str(v) for v in rng.permutation(["0030", "007", "1e3", "12.0", "0900", "+5", "1_0"])[:ns]]
+        met["timestamps"] = [str(v) for v in rng.permutation(["0030", "007", "1e3", "12.0", "0900", "+5", "1_0", "00", "2.50"])[:ns]]
     elif tskind == "datetimes":        # what PyYAML makes of an unquoted date-time
         import datetime as _dt
 
         met["timestamps"] = [_dt.datetime(2024, 3, 1 + i, 9, 30) for i in range(ns)]
+    elif tskind == "datetimes_tz":
+        # timezone-aware stamps over the night daylight saving ends: the same wall-clock reading twice, told apart by the offset only
+        import datetime as _dt
+
+        tz2, tz1 = _dt.timezone(_dt.timedelta(hours=2)), _dt.timezone(_dt.timedelta(hours=1))
+        allts = [_dt.datetime(2024, 10, 27, 2, 0, tzinfo=tz2), _dt.datetime(2024, 10, 27, 2, 0, tzinfo=tz1), _dt.datetime(2024, 10, 27, 2, 30, tzinfo=tz2),
+                 _dt.datetime(2024, 10, 27, 2, 30, tzinfo=tz1)] + [_dt.datetime(2024, 10, 27, 3 + i, 0, tzinfo=tz1) for i in range(8)]
+        met["timestamps"] = allts[:ns]
+    elif tskind == "datetimes_subsecond":
+        import datetime as _dt
+
+        met["timestamps"] = [_dt.datetime(2024, 3, 1, 9, 30, 0, 250000 * i) if i < 4 else _dt.datetime(2024, 3, 1, 9, 30, i) for i in range(ns)]
     cfg = parse_config_dict({
         # a quarter of the configurations have no geographic reference origin (it is optional)
         "domain": dict({"nx": nx, "ny": ny, "xmax": nx * dx, "ymax": ny * dy, "nz": 4}, **({} if (nx + ny + nt) % 4 == 0 else {"ref_lat": 50.0, "ref_lon": 11.0})),
@@ -91,12 +108,16 @@ def synthetic(rng):
     sentinels = bool(rng.random() < 0.3)
     lperm = rng.permutation(nl)
     results = {}
+    saved = list(range(ns))
+    if subset:
+        start = int(rng.integers(1, ns - ns_saved + 1))
+        saved = list(range(start, start + ns_saved)) if rng.random() < 0.5 else sorted(int(v) for v in rng.choice(np.arange(1, ns), size=ns_saved, replace=False))
     for ti, tw in enumerate(cfg.towers):
         lst = []
-        for t in range(ns):
+        for t in saved:
             if three:
-                zl = np.sort(rng.uniform(0.1, 10, nl)) if (hetero and (ti, t) != (0, 0)) else np.linspace(0.5, 4.0, nl)
-                if hetero and (ti, t) == (0, 0):
+                zl = np.sort(rng.uniform(0.1, 10, nl)) if (hetero and (ti, t) != (0, saved[0])) else np.linspace(0.5, 4.0, nl)
+                if hetero and (ti, t) == (0, saved[0]):
                     zl = np.linspace(0.5, 4.0, nl)
                 if lorder == "descending":      # output levels requested top-down / in any order: heights come in that order
                     zl = zl[::-1].copy()
@@ -144,8 +165,9 @@ def synthetic(rng):
             lst.append({"grid": (X, Y, Z), "conc": cf, "flx": ff, "tower_name": tw.name, "tower_xy": (tw.x, tw.y),
                         "timestamp": st["timestamp"], "params": st})
         results[tw.name] = lst
-    desc = dict(towers=nt, steps=ns, dims=3 if three else 2, levels=nl, grid=(ny, nx), values=vclass, timestamps=tskind, forcing=forcing,
-                heights_heterogeneous=hetero, names=names, level_order=lorder if three else "-")
+    desc = dict(towers=nt, steps=len(saved), dims=3 if three else 2, levels=nl, grid=(ny, nx), values=vclass, timestamps=tskind, forcing=forcing,
+                heights_heterogeneous=hetero, names=names, level_order=lorder if three else "-",
+                saved_steps="all" if not subset else f"{saved} of {ns} configured")
     return cfg, results, desc
 
 
